@@ -428,7 +428,7 @@ def g7(F, rep):
             continue
         p = op_place(t["d"])
         d = b.single_def(p["l"]) if p is not None and not p["p"] else None
-        if d and d[2] == "assign" and d[3]["k"] == "discr" and d[3]["place"]["l"] == 1 and not d[3]["place"]["p"]:
+        if d and d[2] == "assign" and d[3]["k"] == "discr" and d[3]["place"]["l"] == 1 and d[3]["place"]["p"] in ([], ["*"]):
             sw = t
             break
     rep.add("G7", "variant-dispatch", sw is not None, b.where(0), "write_chunk_block dispatches on the BlockChunk variant")
@@ -444,7 +444,7 @@ def g7(F, rep):
         if entry is None:
             rep.add("G7", "arm:" + v["name"], False, b.where(0), "no arm for this variant")
             continue
-        pat = re.compile(r"^deref\(arg<[^>]*BlockChunk> as %s\.\d+\.plain_text\)$" % re.escape(v["name"]))
+        pat = re.compile(r"^deref\((deref\()?arg<[^>]*BlockChunk>\)? as %s\.\d+\.plain_text\)$|^deref\(arg<[^>]*BlockChunk> as %s\.\d+\.plain_text\)$" % (re.escape(v["name"]), re.escape(v["name"])))
         W = set()
         for bb, t in b.calls():
             if strip_generics(callee_def(t)).endswith("Write::write_all") and len(t["args"]) > 1 and pat.match(flow.describe(b, t["args"][1])):
